@@ -56,5 +56,12 @@ func VC19_ImageReadOnly() {
 	vsym.AssertBytesEq(o3, b1, "a second Open reader is independent of a partly drained one")
 	vsym.AssertBytesEq(append(head, tail...), b1, "a partly drained Open reader is unaffected by other read-only calls")
 	vsym.AssertReadOnly("image operations")
+	// the same operations for race-detector replays (run only when a store into shared state was found)
+	vsym.Concurrent(
+		func() { p.Hash(crypto.SHA256) },
+		func() { p.Bytes() },
+		func() { p.Signatures() },
+		func() { io.ReadAll(p.Open()) },
+	)
 	vsym.Reach("end")
 }
